@@ -280,6 +280,20 @@ def r4(ctx, rep):
             rep.check(saved and emptied and restored, f"join-append-isolated:{fld}", f"`self.{fld}` must be moved out before the argument of a join / append is folded and put back afterwards: inside a `group` it is "
                       "true, and a `sort` in the appended pipeline would be dropped although its `take` is not a window there (`group g (append (from b | sort x | take 3))` gave `LIMIT 3` without ORDER BY)",
                       file=fl["file"], line=fl["l"], fn=fl["path"])
+    # an (ungrouped) aggregate ends the order in effect: its columns are gone, a later take has nothing to be ordered by
+    ag = None
+    for m in matches_of(fl["body"]):
+        for arm in m["arms"]:
+            if "TransformKind::Aggregate" in show(arm["pat"], maxdepth=8) and "TransformKind::Join" not in show(arm["pat"], maxdepth=8):
+                ag = arm
+    ok = False
+    if ag is not None and ag["body"].get("k") == "block":
+        st = [show_stmts({"k": "block", "s": [x]}, maxdepth=8) for x in ag["body"]["s"]]
+        i_fold = [i for i, t in enumerate(st) if "fold_transform_kind(self, " in t]
+        i_clear = [i for i, t in enumerate(st) if re.match(r"self\.sort(\.clear\(\)| = (vec!\(\)|Vec::new\(\)))", t)]
+        ok = bool(i_fold) and any(i > i_fold[0] for i in i_clear)
+    rep.check(ok, "aggregate-resets", "the Flattener must clear `self.sort` after an aggregate that is not inside a group: `sort c | aggregate {n = sum a} | take 4 | select ..` otherwise orders the take by `c`, "
+              "a column that no longer exists (`ORDER BY c` over a CTE without `c`)", file=fl["file"], line=ag["l"] if ag else fl["l"], fn=fl["path"])
     s = None
     for m in matches_of(fl["body"]):
         for arm in m["arms"]:
